@@ -1,5 +1,6 @@
 import SC.Properties.C10
 import SC.Proofs.SrcIndexByte
+import SC.Proofs.SrcIndexByteB
 /-!
 # C10 — source-level theorems
 
@@ -20,4 +21,13 @@ theorem source_indexByte (s : Bytes) (root off : Nat) (c : UInt8) (h : GoSsa.Hea
     GoSsa.Ret Gen.Src.str false Gen.Src.str_indexByte [.str s root off, .int c.toNat] h
       [.int (A.indexByte (GoSsa.cfg false) s c).1, .int (A.indexByte (GoSsa.cfg false) s c).2] h :=
   GoSsa.Str.indexByte s root off c h hls hCore
+/-- the same for `bytcase.indexByte` (`Gen.Src.byt`; the proof is the strcase one with the names exchanged — the two functions have the same
+    go/ssa shape, and this module stops compiling if they ever differ) -/
+theorem source_indexByte_bytcase (s : Bytes) (root off : Nat) (c : UInt8) (h : GoSsa.Heap) (hls : s.length < 4611686018427387904)
+    (hCore : ∀ (s' : Bytes) (r : Int), ∃ N, ∀ fuel, N ≤ fuel →
+      GoSsa.run Gen.Src.byt true fuel (GoSsa.Frame.entry Gen.Src.byt_indexRuneCase [.str s' root off, .int r]) h =
+        .ok [.int (A.indexRuneCase (GoSsa.cfg true) s' r)] h) :
+    GoSsa.Ret Gen.Src.byt true Gen.Src.byt_indexByte [.str s root off, .int c.toNat] h
+      [.int (A.indexByte (GoSsa.cfg true) s c).1, .int (A.indexByte (GoSsa.cfg true) s c).2] h :=
+  GoSsa.Byt.indexByte s root off c h hls hCore
 end C10
